@@ -98,7 +98,8 @@ Lemma copy_bytes_fuel fuel : forall bs len w cur ans,
 Proof.
   induction fuel as [|f IH]; intros bs len w cur ans Hf; [lia|].
   cbn [copy_bytes]. destruct (len <=? w); [cbn; discriminate|].
-  destruct ans as [|[k|e] rest]; cbn; try discriminate.
+  destruct ans as [|[k|e] rest]; cbn [o_st]; try discriminate.
+  destruct (k =? 0); cbn [o_st out_cons]; [discriminate|].
   apply IH. cbn [length] in Hf. lia.
 Qed.
 
@@ -120,6 +121,7 @@ Proof.
     + cbn. intros _ _. split; [constructor|]. split; [lia|].
       intros i; split; [intros H0; now apply covered_by_nil in H0|lia].
     + destruct ans as [|[k|e] rest]; cbn [o_st o_trace out_cons]; try discriminate.
+      destruct (N.eqb_spec k 0) as [->|Hk0]; cbn [o_st o_trace out_cons]; [discriminate|].
       intros Hst Hb. inversion Hb as [|? ? Hk Hb']; subst. cbn [fst snd moved r_len] in Hk.
       assert (w + k <= len) as Hw' by lia.
       destruct (IH bs len (w + k) (cur + k) rest Hw' Hst Hb') as (A1 & A2 & A3).
@@ -137,21 +139,24 @@ Proof.
   - destruct (len <=? w); intros [].
   - destruct (N.leb_spec len w); [intros []|].
     destruct ans as [|[k|err] rest]; cbn [o_trace out_cons]; [intros []| |].
-    + intros [<-|Hin]; [cbn; lia|]. eapply IH; eauto.
+    + destruct (k =? 0); cbn [o_trace out_cons].
+      * intros [<-|[]]. cbn; lia.
+      * intros [<-|Hin]; [cbn; lia|]. eapply IH; eauto.
     + intros [<-|[]]. cbn; lia.
 Qed.
 
-(* bounded number of kernel calls: with the progress contract, at most
-   len - w requests are issued (C07's loop bound) *)
+(* bounded number of kernel calls: at most len - w requests are issued, for
+   EVERY answer sequence (a zero-byte answer ends the loop with an error) —
+   C07's loop bound *)
 Lemma copy_bytes_steps fuel : forall bs len w cur ans,
-  ans_progress ans ->
   N.of_nat (length (o_trace (copy_bytes fuel bs len w cur ans))) <= len - w.
 Proof.
-  induction fuel as [|f IH]; intros bs len w cur ans Hp; cbn [copy_bytes].
+  induction fuel as [|f IH]; intros bs len w cur ans; cbn [copy_bytes].
   - destruct (len <=? w); cbn; lia.
   - destruct (N.leb_spec len w); [cbn; lia|].
     destruct ans as [|[k|err] rest]; cbn [o_trace out_cons length]; [lia| |lia].
-    inversion Hp as [|? ? Hk Hp']; subst. specialize (IH bs len (w + k) (cur + k) rest Hp'). lia.
+    destruct (N.eqb_spec k 0) as [->|Hk0]; cbn [o_trace out_cons length]; [lia|].
+    specialize (IH bs len (w + k) (cur + k) rest). lia.
 Qed.
 
 (* ------------------------------------------------------------------ *)
@@ -298,7 +303,8 @@ Proof.
   - destruct (len <=? w); cbn; unfold total_moved; cbn; lia.
   - destruct (N.leb_spec len w); [unfold total_moved; cbn; lia|].
     destruct ans as [|[k|e] rest]; cbn [o_trace out_cons]; [unfold total_moved; cbn; lia| |].
-    + intros Hb. inversion Hb as [|? ? Hk Hb']; subst. cbn [fst snd moved r_len] in Hk.
+    + destruct (N.eqb_spec k 0) as [->|Hk0]; cbn [o_trace out_cons]; [intros _; unfold total_moved; cbn; lia|].
+      intros Hb. inversion Hb as [|? ? Hk Hb']; subst. cbn [fst snd moved r_len] in Hk.
       assert (w + k <= len) as Hw' by lia. specialize (IH bs len (w + k) (cur + k) rest Hw' Hb').
       unfold total_moved in *. cbn [map sumN snd moved]. lia.
     + intros _. unfold total_moved. cbn. lia.
